@@ -261,3 +261,19 @@ package bigslice
 //@   ensures  classified: implies(userCalls == old(userCalls) + 1, len(lastCallRvs) >= 2 && userErrOutcome(rvIface(lastCallRvs[1]), err) && n == rvIntOf(lastCallRvs[0]))
 //@   ensures  remembered: implies(userCalls == old(userCalls) + 1, r.err == err)
 //@   modifies r.err, r.state, r.consecutiveEmptyCalls, ColMem, userCalls, lastCallRvs
+
+//@ func bigslice.(*writerFuncReader).callWrite (ctx, err, frame) (werr)
+//@   requires r != nil
+//@   may_panic
+//@   ensures  one-call: userCalls == old(userCalls) + 1 && len(lastCallRvs) >= 1 && werr == rvIface(lastCallRvs[0])
+//@   modifies ColMem, userCalls, lastCallRvs
+
+// WriterFunc passes rows through unchanged; the write function's error replaces a nil / end-of-stream result of the
+// underlying reader: as is when marked temporary, otherwise as a Fatal error carrying it. An error of the underlying
+// reader wins. The outcome is sticky.
+//@ func bigslice.(*writerFuncReader).Read (ctx, out) (n, err)
+//@   requires r != nil && r.reader != nil && r.stateType != nil && out.len >= 0
+//@   may_panic
+//@   ensures  sticky: implies(old(r.err) != nil, n == 0 && err == old(r.err) && userCalls == old(userCalls) && r.reader.nreads == old(r.reader.nreads))
+//@   ensures  classified: implies(old(r.err) == nil, userCalls == old(userCalls) + 1 && n == r.reader.lastN && r.err == err && ite(rvIface(lastCallRvs[0]) != nil && (r.reader.lastErr == nil || r.reader.lastErr == sliceio.EOF), ite(isTemporary(rvIface(lastCallRvs[0])), err == rvIface(lastCallRvs[0]), isFatal(err) && errCause(err) == rvIface(lastCallRvs[0])), err == r.reader.lastErr))
+//@   modifies r.err, r.state, ColMem, userCalls, lastCallRvs, SReader.nreads, SReader.lastN, SReader.lastErr, rowsSupplied, sawRowsWithEOF
